@@ -91,8 +91,12 @@ type c07op struct {
 }
 
 type c07case struct {
-	God    int        `json:"god"`
-	Ids    []c07ident `json:"ids"`
+	God int        `json:"god"`
+	Ids []c07ident `json:"ids"` // the identity set behind the `validatorsCache` ARGUMENT of ValidateBlockCert
+	// the node's own live state (chain.appState.ValidatorsCache): the same set, or another one (absent = a fresh
+	// node, nobody online) - fast sync and fork validation pass a cache that is not the live one
+	LiveSame bool       `json:"live_same,omitempty"`
+	Live     []c07ident `json:"live,omitempty"`
 	Seed   int64      `json:"seed"`
 	Height uint64     `json:"height"`
 	Ops    []c07op    `json:"ops"`
@@ -180,6 +184,7 @@ type c07fx struct {
 	app    *appstate.AppState
 	vc     *validators.ValidatorsCache
 	vc2    *validators.ValidatorsCache // same identity set, loaded from a tree built in another order
+	live   *validators.ValidatorsCache // the live cache of the chain object under test (differs from vc unless LiveSame)
 	chain  *blockchain.Blockchain
 	engine *consensus.Engine
 	votes  *pengings.Votes
@@ -305,11 +310,34 @@ func c07newFx(cs c07case) (*c07fx, error) {
 	ss := secstore.NewSecStore()
 	offline := blockchain.NewOfflineDetector(fx.cfg, db, app, ss, bus)
 	up := upgrade.NewUpgrader(fx.cfg, app, db)
-	fx.chain = blockchain.NewBlockchain(fx.cfg, db, nil, app, nil, ss, bus, offline, nil, nil, up)
-	fx.chain.Head = prev
+	chainSelf := blockchain.NewBlockchain(fx.cfg, db, nil, app, nil, ss, bus, offline, nil, nil, up)
+	chainSelf.Head = prev
+	fx.chain = chainSelf
+	if !cs.LiveSame {
+		// the chain object whose ValidateBlockCert / threshold functions are called has ANOTHER live validator set
+		ldb := dbm.NewMemDB()
+		lapp, err := appstate.NewAppState(ldb, eventbus.New())
+		if err != nil {
+			return nil, err
+		}
+		lorder := make([]int, len(cs.Live))
+		for i := range lorder {
+			lorder[i] = i
+		}
+		if err := c07populate(lapp.IdentityState, cs.Live, lorder, -1); err != nil {
+			return nil, err
+		}
+		lapp.ValidatorsCache = validators.NewValidatorsCache(lapp.IdentityState, god)
+		lapp.ValidatorsCache.Load()
+		fx.live = lapp.ValidatorsCache
+		fx.chain = blockchain.NewBlockchain(fx.cfg, ldb, nil, lapp, nil, ss, eventbus.New(), nil, nil, nil, nil)
+		fx.chain.Head = prev
+	} else {
+		fx.live = fx.vc
+	}
 	fx.votes = pengings.NewVotes(app, bus, offline, up)
 	fx.votes.Initialize(prev)
-	fx.engine = consensus.NewEngine(fx.chain, nil, nil, fx.cfg, app, fx.votes, nil, ss, nil, offline, up, nil, bus, collector.NewStatsCollector())
+	fx.engine = consensus.NewEngine(chainSelf, nil, nil, fx.cfg, app, fx.votes, nil, ss, nil, offline, up, nil, bus, collector.NewStatsCollector())
 
 	fx.keyOf[god] = cs.God
 	for _, id := range cs.Ids {
@@ -1043,6 +1071,14 @@ func c07shrink(cs c07case) c07case {
 				}
 			}
 		}
+		for i := 0; i < len(cs.Live) && len(cs.Live) <= 40; i++ {
+			t := cs
+			t.Live = append(append([]c07ident{}, cs.Live[:i]...), cs.Live[i+1:]...)
+			if fails(t) {
+				cs, changed = t, true
+				i--
+			}
+		}
 		if len(cs.Ids) <= 40 {
 			for i := 0; i < len(cs.Ids); i++ {
 				t := cs
@@ -1125,6 +1161,18 @@ func c07genRegistry(r *rand.Rand, thorough bool) c07case {
 	}
 	if r.Intn(2) == 0 { // the god address is an identity too
 		cs.Ids = append(cs.Ids, c07ident{K: 0, Del: -1, On: !godOnly && r.Intn(2) == 0, Val: true})
+	}
+	// the node's live validator set: same (25%), fresh node / nobody online (25%), or a set of another size chosen
+	// from every threshold class (0-1, 2-3, 4-5, 6-7, 8, 9+, capped committees) - smaller and larger than the argument's
+	switch r.Intn(4) {
+	case 0:
+		cs.LiveSame = true
+	case 1:
+	default:
+		m := []int{1, 2, 3, 4, 5, 6, 7, 8, 9, 12, 20, 45, 100, 160, 350}[r.Intn(15)]
+		for i := 0; i < m; i++ {
+			cs.Live = append(cs.Live, c07ident{K: 2000 + i, Del: -1, On: true, Val: true, Disc: r.Intn(10) == 0})
+		}
 	}
 	return cs
 }
@@ -1595,7 +1643,7 @@ func init() {
 			return nil
 		}
 		thorough := c.Tier == "thorough"
-		c.Rep.Rule = "registries (0..400 identities: god-only, <=8 switch table, pools with owners inside/outside the registry, discrimination none/some/heavy/all) on a real identity tree + ValidatorsCache; per registry: committee draws (steps 1..149, 253-255, explicit limits incl. n-1, n, n+1), certificates built from real secp256k1 signatures with exactly need-1 / need / need+1 distinct eligible voters plus operators (duplicates, same voter other flags, outsiders, non-eligible members, other round/step/parent/hash signed, flag mismatch, 5 byte-level forgeries, certificate-level other round/hash/step, other parent/block context, both sync paths), vote sets through the real AddVote + countVotes (equivocation, stale/future rounds, late votes) whose certificates go back through ValidateBlockCert; 1 case in 40: registry of <= 7 identities with EVERY subset of (eligible voters + a non-eligible member + an outsider) as a certificate; plus the table of the real committee-size / threshold / subtrahend functions over cnt <= N for the four consensus versions; distinct = distinct (registry, op); non-trivial = certificate with at least one signature or required <= 0"
+		c.Rep.Rule = "registries (0..400 identities: god-only, <=8 switch table, pools with owners inside/outside the registry, discrimination none/some/heavy/all) on a real identity tree + ValidatorsCache passed as the `validatorsCache` ARGUMENT, while the chain object's own live appState cache is the same set (25%), a fresh node's (25%) or a set of another size from every threshold class (50%); per registry: committee draws (steps 1..149, 253-255, explicit limits incl. n-1, n, n+1), certificates built from real secp256k1 signatures with exactly need-1 / need / need+1 distinct eligible voters plus operators (duplicates, same voter other flags, outsiders, non-eligible members, other round/step/parent/hash signed, flag mismatch, 5 byte-level forgeries, certificate-level other round/hash/step, other parent/block context, both sync paths), vote sets through the real AddVote + countVotes (equivocation, stale/future rounds, late votes) whose certificates go back through ValidateBlockCert; 1 case in 40: registry of <= 7 identities with EVERY subset of (eligible voters + a non-eligible member + an outsider) as a certificate; plus the table of the real committee-size / threshold / subtrahend functions over cnt <= N for the four consensus versions; distinct = distinct (registry, op); non-trivial = certificate with at least one signature or required <= 0"
 		maxCnt := 200000
 		c07table(c, maxCnt, thorough)
 		n := c.Scale(260, 12000)
@@ -1669,6 +1717,16 @@ func init() {
 				if c.Distinct(string(reg) + string(ob)) {
 					c.Rep.Distinct++
 				}
+			}
+			switch {
+			case r.cs.LiveSame:
+				c.Hit("live-state:same-as-argument")
+			case len(r.cs.Live) == 0:
+				c.Hit("live-state:fresh-node(nobody-online)")
+			case len(r.cs.Live) < len(r.cs.Ids):
+				c.Hit("live-state:smaller-than-argument")
+			default:
+				c.Hit("live-state:larger-than-argument")
 			}
 			sz := len(r.cs.Ids)
 			switch {
